@@ -335,55 +335,241 @@ func c07TagFold(r *Report, rt *Routine, flow *FlowResult, a *xAnalysis, verdict 
 			}
 		}
 	}
-	// accumulators: registers OR-ed with memory inside the loops that precede this block
+	// the compare loops: byte-dependency simulation of each loop body (tagCompareLoops) gives, per loop, the accumulator
+	// registers with the bytes of the tag difference they collect, and checks that the loop folds every byte it steps over
+	loops := tagCompareLoops(r, rt, flow, a, blk.start)
 	n := 0
-	for idx, in := range rt.Instrs {
-		if !rt.InCycle[idx] || len(in.Args) != 2 || in.Args[1].Kind != OReg {
-			continue
-		}
-		var bits uint64
-		switch in.Op {
-		case "ORQ":
-			bits = ^uint64(0)
-		case "ORB":
-			bits = 0xff
-		default:
-			continue
-		}
-		if !isMemOp(in.Args[0]) {
-			continue
-		}
-		// only the loops whose exit leads to the verdict block (the tag compare loops)
-		if !reachesWithoutLeaving(rt, idx, blk.start) {
-			continue
-		}
-		n++
-		reg := in.Args[1].Reg
-		// TAG-COVERAGE: per iteration the loop advances its pointer by exactly the number of bytes it folds into the
-		// accumulator, and the difference it folds was written at least that wide
-		{
-			xb := a.blocks[a.blockOf[idx]]
-			width := map[string]int64{"ORQ": 8, "ORL": 4, "ORW": 2, "ORB": 1}[in.Op]
-			base := in.Args[0].Reg
-			var step, xorW int64
-			for j := xb.start; j <= xb.end && j < len(rt.Instrs); j++ {
-				o := rt.Instrs[j]
-				if (o.Op == "ADDQ" || o.Op == "LEAQ") && len(o.Args) == 2 && o.Args[0].Kind == OImm && o.Args[1].Kind == OReg && o.Args[1].Reg == base {
-					step += o.Args[0].Imm
-				}
-				if strings.HasPrefix(o.Op, "XOR") && len(o.Args) == 2 && isMemOp(o.Args[1]) && o.Args[1].Reg == base && o.Args[1].Off == in.Args[0].Off {
-					xorW = map[string]int64{"XORQ": 8, "XORL": 4, "XORW": 2, "XORB": 1}[o.Op]
+	for _, lp := range loops {
+		for reg, bytes := range lp.acc {
+			n++
+			var bits uint64
+			for i := 0; i < 8; i++ {
+				if bytes&(1<<uint(i)) != 0 {
+					bits |= 0xff << uint(8*i)
 				}
 			}
-			okCov := in.Args[0].Off == 0 && step == width && xorW >= width
-			r.Check(okCov, "TAG-COVERAGE", fmt.Sprintf("amd64/openAsm compare loop folding into %s (%s)", reg, in.Op), in.Pos, fmt.Sprintf("per iteration: pointer %s advances by %d, the difference is written %d bytes wide and %d bytes of it are folded into %s%s", base, step, xorW, width, reg, ifs(!okCov, "; every byte the loop steps over must be folded into the accumulator")))
+			missing := bits &^ demand[reg]
+			r.Check(missing == 0, "TAG-FOLD", fmt.Sprintf("amd64/openAsm accumulator %s (%d-byte compare loop)", reg, lp.width), lp.pos, fmt.Sprintf("bits the compare loop can set: %#x; bits that reach the verdict: %#x%s", bits, demand[reg], ifs(missing != 0, fmt.Sprintf("; bits %#x of the tag difference never influence the verdict", missing))))
 		}
-		missing := bits &^ demand[reg]
-		r.Check(missing == 0, "TAG-FOLD", fmt.Sprintf("amd64/openAsm accumulator %s (%s)", reg, in.Op), in.Pos, fmt.Sprintf("bits the compare loop can set: %#x; bits that reach the verdict: %#x%s", bits, demand[reg], ifs(missing != 0, fmt.Sprintf("; bits %#x of the tag difference never influence the verdict", missing))))
 	}
 	if n == 0 {
-		r.Undecided("TAG-FOLD", "amd64/openAsm", verdict.Pos, "no difference accumulator (OR with memory inside the compare loops) found")
+		r.Undecided("TAG-FOLD", "amd64/openAsm", verdict.Pos, "no compare loop with a difference accumulator found before the verdict")
 	}
+}
+
+type tagLoop struct {
+	width int
+	pos   string
+	acc   map[string]uint8 // accumulator register -> bytes that carry a tag difference
+}
+
+// tagCompareLoops: every cycle that reaches the verdict block and loads from both the received tag (ciphertext) and the
+// expected tag (scratch). The loop body is simulated on byte-dependency sets: each register / the scratch word holds, per
+// byte, which bytes x_i (received) and y_i (expected) of this iteration's window it depends on. TAG-COVERAGE requires that
+// for every byte i of the window some accumulator byte depends on both x_i and y_i, and that both pointers advance by
+// exactly the window width.
+func tagCompareLoops(r *Report, rt *Routine, flow *FlowResult, a *xAnalysis, verdictStart int) []tagLoop {
+	accBy := map[int]Access{}
+	for _, ac := range flow.Accesses {
+		accBy[ac.Instr.Idx] = ac
+	}
+	var out []tagLoop
+	seenBlk := map[int]bool{}
+	for idx := range rt.Instrs {
+		if !rt.InCycle[idx] {
+			continue
+		}
+		bi := a.blockOf[idx]
+		if seenBlk[bi] {
+			continue
+		}
+		seenBlk[bi] = true
+		xb := a.blocks[bi]
+		if !reachesWithoutLeaving(rt, xb.start, verdictStart) {
+			continue
+		}
+		// does the block load from both tags?
+		var xBase, yBase string
+		for j := xb.start; j < xb.end && j < len(rt.Instrs); j++ {
+			if ac, ok := accBy[j]; ok {
+				switch ac.Object {
+				case "p:ciphertext.ptr":
+					xBase = ac.Mem.Base
+				case "p:temp.ptr":
+					yBase = ac.Mem.Base
+				}
+			}
+		}
+		if xBase == "" || yBase == "" {
+			continue
+		}
+		hasXor := false
+		for j := xb.start; j < xb.end && j < len(rt.Instrs); j++ {
+			if strings.HasPrefix(rt.Instrs[j].Op, "XOR") {
+				hasXor = true
+			}
+		}
+		if !hasXor {
+			continue // a copy loop (staging of the received tag), not a comparison
+		}
+		type dep [8]uint16 // per byte: bit i = x_i, bit 8+i = y_i
+		regs := map[string]dep{}
+		temps := map[string]bool{} // registers (re)loaded in every iteration
+		var mem dep // the scratch word at 0(y)
+		memValid := false
+		width := 0
+		step := map[string]int64{}
+		var problems []string
+		opw := func(op string) int {
+			switch op[len(op)-1] {
+			case 'Q':
+				return 8
+			case 'L':
+				return 4
+			case 'W':
+				return 2
+			case 'B':
+				return 1
+			}
+			return 0
+		}
+		loadDep := func(base string, w int) dep {
+			var d dep
+			for i := 0; i < w; i++ {
+				if base == xBase {
+					d[i] = 1 << uint(i)
+				} else {
+					d[i] = 1 << uint(8+i)
+				}
+			}
+			return d
+		}
+		union := func(p, q dep, w int) dep {
+			for i := 0; i < w; i++ {
+				p[i] |= q[i]
+			}
+			return p
+		}
+		for j := xb.start; j < xb.end && j < len(rt.Instrs); j++ {
+			in := rt.Instrs[j]
+			if len(in.Args) != 2 {
+				continue
+			}
+			src, dst := in.Args[0], in.Args[1]
+			w := opw(in.Op)
+			isMem := func(o Operand) bool { return o.Kind == OMem && (o.Reg == xBase || o.Reg == yBase) }
+			switch {
+			case strings.HasPrefix(in.Op, "MOV") && isMem(src) && dst.Kind == OReg:
+				if src.Off != 0 {
+					problems = append(problems, "load at a non-zero offset: "+in.Raw)
+				}
+				if src.Reg == yBase && memValid {
+					regs[dst.Reg] = mem
+				} else {
+					regs[dst.Reg] = loadDep(src.Reg, w)
+				}
+				temps[dst.Reg] = true
+				if w > width {
+					width = w
+				}
+			case strings.HasPrefix(in.Op, "MOV") && src.Kind == OReg && isMem(dst):
+				if dst.Reg == yBase {
+					mem, memValid = regs[src.Reg], true
+				}
+			case strings.HasPrefix(in.Op, "MOV") && src.Kind == OReg && dst.Kind == OReg && isGPR(dst.Reg):
+				regs[dst.Reg] = regs[src.Reg]
+			case strings.HasPrefix(in.Op, "MOV") && src.Kind == OImm && dst.Kind == OReg:
+				regs[dst.Reg] = dep{}
+			case (strings.HasPrefix(in.Op, "XOR") || strings.HasPrefix(in.Op, "OR")) && w > 0:
+				var sd dep
+				switch {
+				case isMem(src):
+					if src.Reg == yBase && memValid {
+						sd = mem
+					} else {
+						sd = loadDep(src.Reg, w)
+					}
+					if w > width {
+						width = w
+					}
+				case src.Kind == OReg:
+					sd = regs[src.Reg]
+				default:
+					continue
+				}
+				switch {
+				case dst.Kind == OReg:
+					if strings.HasPrefix(in.Op, "XOR") && src.Kind == OReg && src.Reg == dst.Reg {
+						regs[dst.Reg] = dep{} // zero idiom
+					} else {
+						regs[dst.Reg] = union(regs[dst.Reg], sd, w)
+					}
+				case isMem(dst):
+					cur := loadDep(dst.Reg, w)
+					if dst.Reg == yBase && memValid {
+						cur = mem
+					}
+					if dst.Reg == yBase {
+						mem, memValid = union(cur, sd, w), true
+					}
+					if w > width {
+						width = w
+					}
+				}
+			case (in.Op == "ADDQ" || in.Op == "SUBQ") && src.Kind == OImm && dst.Kind == OReg:
+				if in.Op == "ADDQ" {
+					step[dst.Reg] += src.Imm
+				} else {
+					step[dst.Reg] -= src.Imm
+				}
+			case in.Op == "LEAQ" && src.Kind == OMem && dst.Kind == OReg && src.Reg == dst.Reg:
+				step[dst.Reg] += src.Off
+			case in.Op == "CMPQ" || in.Op == "TESTQ":
+			default:
+				// anything else that writes a tracked register makes it unknown (no dependencies)
+				if dst.Kind == OReg {
+					if _, tracked := regs[dst.Reg]; tracked {
+						delete(regs, dst.Reg)
+					}
+				}
+			}
+		}
+		if width == 0 {
+			continue
+		}
+		lp := tagLoop{width: width, pos: rt.Instrs[xb.start].Pos, acc: map[string]uint8{}}
+		covered := map[int]bool{}
+		for reg, d := range regs {
+			if reg == "" {
+				continue
+			}
+			var bytes uint8
+			for i := 0; i < 8; i++ {
+				if d[i] != 0 {
+					bytes |= 1 << uint(i)
+				}
+				for k := 0; k < width; k++ {
+					if d[i]&(1<<uint(k)) != 0 && d[i]&(1<<uint(8+k)) != 0 {
+						covered[k] = true
+					}
+				}
+			}
+			// an accumulator survives the iteration: it is neither a pointer nor the loaded temporary (it must be live into
+			// the verdict fold, which TAG-FOLD checks); temporaries are harmless here because TAG-FOLD only looks at demanded ones
+			if bytes != 0 && !temps[reg] {
+				lp.acc[reg] = bytes
+			}
+		}
+		okCov := len(problems) == 0 && step[xBase] == int64(width) && step[yBase] == int64(width)
+		for k := 0; k < width; k++ {
+			if !covered[k] {
+				okCov = false
+			}
+		}
+		r.Check(okCov, "TAG-COVERAGE", fmt.Sprintf("amd64/openAsm %d-byte compare loop", width), lp.pos, fmt.Sprintf("per iteration both tag pointers advance by %d / %d bytes and %d of the %d bytes of (received XOR expected) reach an accumulator%s", step[xBase], step[yBase], len(covered), width, ifs(len(problems) > 0, "; "+strings.Join(problems, "; "))))
+		out = append(out, lp)
+	}
+	return out
 }
 
 // reachesWithoutLeaving: instruction `to` is reachable from `from` (CFG reachability).
